@@ -104,6 +104,8 @@ func checkC08(c *Ctx, w *World) {
 	A := cs.Atom
 	pre := cs.And(A("keyFound"), cs.Not(A("homeReady")), A("fallback"))
 
+	// exits, with returns of merged values split per way of arriving
+	vrets := cs.VirtualReturns()
 	// ---- C08.insert
 	ni := 0
 	for _, a := range pl.ai.ByFn[grs] {
@@ -118,11 +120,17 @@ func checkC08(c *Ctx, w *World) {
 			"a stand-in can be recorded outside the fallback conditions or can replace an existing stand-in: "+wit)
 		// value: connection of the selected slot; every return reachable from here returns that slot
 		f, base, isL := loadedField(mu.Value)
+		if isL {
+			// (the selected slot may have travelled through a merged local that is nil on the other branches)
+			if rs := cs.ResolveUnder(base, cs.Reach(mu)); len(rs) == 1 {
+				base = rs[0]
+			}
+		}
 		valOK := isL && f == "subConnRef.subConn" && isSel(base)
 		retOK := true
-		for _, r := range returnsOf(grs) {
-			if mayPrecede(mu, r) {
-				v, onlyNil, ok := slotOrigin(r.Results[0])
+		for _, vr := range vrets {
+			if mayPrecede(mu, vr.Ret) && cs.Satisfiable(and(vr.Cond, cs.Reach(mu))) {
+				v, onlyNil, ok := slotOrigin(vr.Vals[0])
 				if !ok || onlyNil || !isSel(v) {
 					retOK = false
 				}
@@ -147,8 +155,9 @@ func checkC08(c *Ctx, w *World) {
 
 	// ---- C08.reuse + told-to-wait returns
 	nreuse := 0
-	for i, r := range returnsOf(grs) {
-		v, onlyNil, ok := slotOrigin(r.Results[0])
+	for i, vr := range vrets {
+		r := vr.Ret
+		v, onlyNil, ok := slotOrigin(vr.Vals[0])
 		if !ok {
 			continue
 		}
@@ -156,14 +165,14 @@ func checkC08(c *Ctx, w *World) {
 		if !onlyNil {
 			if l, isLk := stripConv(v).(*ssa.Lookup); isLk && isLoadOf(l.X, "gcpBalancer.scRefs") && isStandIn(l.Index) {
 				nreuse++
-				eq, wit := cs.EquivStrict(cs.Reach(r), cs.OnlyNamed(cs.And(pre, A("fbFound"))))
+				eq, wit := cs.EquivStrict(vr.Cond, cs.OnlyNamed(cs.And(pre, A("fbFound"))))
 				c.check(eq, "C08.reuse", construct, p.ipos(r), "the recorded stand-in's slot is returned ⇔ bound ∧ home not READY ∧ fallback ∧ stand-in recorded", "an existing stand-in is not reused exactly under the fallback conditions: "+wit)
 			}
 			continue
 		}
 		// nil slot with found == true under fallback: only when nothing can be selected
-		if cs.Satisfiable(and(cs.Reach(r), pre)) {
-			imp, wit := cs.Implies(and(cs.Reach(r), pre), cs.And(cs.Not(A("fbFound")), cs.Or(cs.Not(A("isPoolPicker")), A("selNil"))))
+		if cs.Satisfiable(and(vr.Cond, pre)) {
+			imp, wit := cs.Implies(and(vr.Cond, pre), cs.And(cs.Not(A("fbFound")), cs.Or(cs.Not(A("isPoolPicker")), A("selNil"))))
 			c.check(imp, "C08.total", construct+": told to wait", p.ipos(r), "with fallback enabled the call is told to wait only when no stand-in exists and the current picker offers no READY slot", "with fallback enabled a keyed call can be refused although a READY stand-in is available: "+wit)
 		}
 	}
